@@ -353,6 +353,11 @@ def effects_on_name(fn, name):
             out.append('returned to the caller')
         elif isinstance(n, ast.Assign) and isinstance(n.value, ast.Name) and n.value.id == name and any(isinstance(t, ast.Attribute) for t in n.targets):
             out.append('stored in an attribute')
+        elif isinstance(n, ast.AnnAssign) and isinstance(n.value, ast.Name) and n.value.id == name and isinstance(n.target, ast.Attribute):
+            out.append('stored in an attribute')
+        elif isinstance(n, ast.Call) and any(isinstance(a, ast.Name) and a.id == name for a in list(n.args) + [k.value for k in n.keywords]) and \
+                not (isinstance(n.func, ast.Name) and n.func.id in ('len', 'isinstance', 'list', 'dict', 'set', 'tuple', 'sorted', 'bool', 'str', 'repr', 'print')):
+            out.append(f'passed on to {ast.unparse(n.func)[:30]}() (escapes)')
     if out and rebinds:
         # `if x is None: x = {}` style guards make the default harmless only if the default itself is None - it is not here
         pass
